@@ -29,6 +29,8 @@ type bTreeContainers struct {
 func newBTreeContainers() *bTreeContainers {
 	return &bTreeContainers{
 		tree: treeNew(),
+		// no key has been looked up yet
+		lastKey: ^uint64(0),
 	}
 }
 
@@ -43,7 +45,7 @@ func NewBTreeBitmap(a ...uint64) *Bitmap {
 
 func (btc *bTreeContainers) Get(key uint64) *Container {
 	// Check the last* cache for same container.
-	if key == btc.lastKey {
+	if key == btc.lastKey && btc.lastContainer != nil {
 		return btc.lastContainer
 	}
 
@@ -66,7 +68,7 @@ func (btc *bTreeContainers) Put(key uint64, c *Container) {
 	// lastContainer cache so that the cache is not pointing
 	// at a read-only mmap.
 	if c.Mapped() {
-		btc.lastKey = ^uint64(0)
+		btc.lastKey, btc.lastContainer = ^uint64(0), nil
 	}
 	btc.tree.Set(key, c)
 }
@@ -95,6 +97,10 @@ type updater struct {
 func (btc *bTreeContainers) PutContainerValues(key uint64, typ byte, n int, mapped bool) {
 	a := updater{key, int32(n), typ, mapped}
 	btc.tree.Put(key, a.update)
+	// the container at key may have been replaced
+	if key == btc.lastKey {
+		btc.lastKey, btc.lastContainer = ^uint64(0), nil
+	}
 }
 
 func (btc *bTreeContainers) Remove(key uint64) {
@@ -107,7 +113,7 @@ func (btc *bTreeContainers) Remove(key uint64) {
 
 func (btc *bTreeContainers) GetOrCreate(key uint64) *Container {
 	// Check the last* cache for same container.
-	if key == btc.lastKey {
+	if key == btc.lastKey && btc.lastContainer != nil {
 		return btc.lastContainer
 	}
 
@@ -219,6 +225,10 @@ func (btc *bTreeContainers) Repair() {
 // replace the given container.
 func (btc *bTreeContainers) Update(key uint64, fn func(*Container, bool) (*Container, bool)) {
 	btc.tree.Put(key, fn)
+	// the container at key may have been replaced
+	if key == btc.lastKey {
+		btc.lastKey, btc.lastContainer = ^uint64(0), nil
+	}
 }
 
 // UpdateEvery calls fn (existing-container, existed), and expects
@@ -229,6 +239,8 @@ func (btc *bTreeContainers) UpdateEvery(fn func(uint64, *Container, bool) (*Cont
 	// currently not handling the error from this, but in practice it has
 	// to be io.EOF.
 	_ = e.Every(fn)
+	// any container may have been replaced
+	btc.lastKey, btc.lastContainer = ^uint64(0), nil
 }
 
 type btcIterator struct {
